@@ -98,9 +98,26 @@ var corpus = [][]string{
 // between whichever goroutines use it) is therefore banned on the task path - with it, about
 // 3 of 4 conflicting access pairs became "ordered" and the detector went blind (found with
 // seeded change c20a-2, see DESIGN.md 10.2). Only strconv and append are used.
-type tr struct{ b []byte }
+type tr struct {
+	b    []byte
+	held [][]byte // slices the library handed out, kept by reference and re-read at the end
+}
 
-func (t *tr) Bytes() []byte { return t.b }
+// Bytes finishes the transcript: every byte slice observed during the workload is read
+// again through the reference the caller kept. Whatever it shows now is deterministic when
+// the task runs alone (even where the library legitimately rewrites its input in place);
+// if another task's activity changed it, the transcripts differ.
+func (t *tr) Bytes() []byte {
+	for i, h := range t.held {
+		t.b = append(t.b, "held "...)
+		t.b = stdstrconv.AppendInt(t.b, int64(i), 10)
+		t.b = append(t.b, ' ')
+		t.b = stdstrconv.AppendQuote(t.b, string(h))
+		t.b = append(t.b, '\n')
+	}
+	t.held = nil
+	return t.b
+}
 
 func (t *tr) add(tag string, a ...interface{}) {
 	t.b = append(t.b, tag...)
@@ -109,6 +126,9 @@ func (t *tr) add(tag string, a ...interface{}) {
 		switch v := x.(type) {
 		case []byte:
 			t.b = stdstrconv.AppendQuote(t.b, string(v))
+			if len(v) > 0 && len(t.held) < 48 {
+				t.held = append(t.held, v)
+			}
 		case string:
 			t.b = append(t.b, v...)
 		case error:
@@ -363,7 +383,9 @@ func runWorkloadIn(in wlInput, scratch []byte) (out []byte) {
 		dec, n4 := strconv.ParseDecimal(d)
 		t.add("ParseDecimal", dec, n4)
 		call()
-		num, decs, n5 := strconv.ParseNumber(d, ',', '.')
+		seps := [][2]rune{{',', '.'}, {'.', ','}, {'\u00a0', ','}, {'\u202f', '.'}, {'\u2019', '.'}, {'\u066c', '\u066b'}, {' ', '\u00b7'}, {'_', '.'}}
+		sep := seps[in.opt%len(seps)]
+		num, decs, n5 := strconv.ParseNumber(d, sep[0], sep[1])
 		t.add("ParseNumber", num, decs, n5)
 		call()
 		t.add("AppendInt", strconv.AppendInt(nil, i64))
@@ -372,7 +394,9 @@ func runWorkloadIn(in wlInput, scratch []byte) (out []byte) {
 		call()
 		t.add("AppendDecimal", strconv.AppendDecimal(nil, dec, in.opt%5))
 		call()
-		t.add("AppendNumber", strconv.AppendNumber(nil, num, decs, 3, ',', '.'))
+		t.add("AppendNumber", strconv.AppendNumber(nil, num, decs, 3, sep[0], sep[1]))
+		call()
+		t.add("AppendNumber2", strconv.AppendNumber(nil, i64, in.opt%4, 2+in.opt%3, sep[0], sep[1]))
 		t.add("LenInt", strconv.LenInt(i64), strconv.LenUint(u64))
 	case wlHelpers:
 		cp := func() []byte { return append(make([]byte, 0, len(d)+3), d...) }
@@ -385,11 +409,26 @@ func runWorkloadIn(in wlInput, scratch []byte) (out []byte) {
 		call()
 		t.add("wsents", parse.ReplaceMultipleWhitespaceAndEntities(cp(), ents, rev))
 		call()
+		// one scratch buffer per "document", reused for successive attribute values of growing
+		// length, as a minifier does; earlier results stay referenced and are re-read at the end
 		var hb []byte
+		short := cp()
+		if len(short) > 6 {
+			short = short[:6]
+		}
+		t.add("hesc-short", html.EscapeAttrVal(&hb, short, '\'', true))
+		call()
 		t.add("hesc", html.EscapeAttrVal(&hb, cp(), '"', in.opt&1 == 1))
 		call()
+		long := bytes.Repeat(cp(), 1+70/(len(d)+1))
+		t.add("hesc-long", html.EscapeAttrVal(&hb, long, '"', true))
+		call()
 		var xb []byte
+		t.add("xesc-short", xml.EscapeAttrVal(&xb, short))
+		call()
 		t.add("xesc", xml.EscapeAttrVal(&xb, cp()))
+		call()
+		t.add("xesc-long", xml.EscapeAttrVal(&xb, long))
 		call()
 		var cb []byte
 		cd, ok := xml.EscapeCDATAVal(&cb, cp())
